@@ -27,3 +27,10 @@ Theorem C19_rows_compose : forall bad r1 r2 s,
   run_rows bad s (r1 ++ r2) = ibind (run_rows bad s r1) (fun s' => run_rows bad s' r2).
 Proof. exact run_rows_app. Qed.
 Print Assumptions C19_rows_compose.
+
+(* obligation regenerated from the source on every run: the code this property runs through keeps exactly the state the
+   model knows (no new attribute, class-level table, module-level binding or caching decorator), see proofs/State*Proofs.v *)
+From KV Require Import StateGen StateBase StateImportProofs StateDocumentProofs.
+Theorem C19_state_as_modelled : state_import = modelled_state_import /\ state_document = modelled_state_document.
+Proof. exact (conj state_import_as_modelled state_document_as_modelled). Qed.
+Print Assumptions C19_state_as_modelled.
